@@ -184,6 +184,83 @@ type hcase struct {
 	Outside []string `json:"outside_effects,omitempty"`
 	Writes  []string `json:"write_destinations,omitempty"`
 	TempsOK bool     `json:"temps_ok"`
+	Shared  bool     `json:"same_bundle_objects_reused"` // Sets of equal content pass the SAME *Bundle / *RevocationList objects
+	Frame   []string `json:"caller_owned_objects_mutated,omitempty"`
+}
+
+// ---------- caller-owned objects ----------
+
+// snapRL is a deep fingerprint of a RevocationList (every exported field, byte
+// slices by content and nil-ness, big integers and times by value).
+func snapRL(rl *x509.RevocationList) string {
+	if rl == nil {
+		return "nil"
+	}
+	j, err := json.Marshal(rl)
+	if err != nil {
+		j = []byte(fmt.Sprintf("%+v", *rl))
+	}
+	h := sha256.Sum256(j)
+	return fmt.Sprintf("%p:%d:%x", rl, len(j), h[:8])
+}
+
+func snapBundle(b *corecrl.Bundle) string {
+	if b == nil {
+		return "nil"
+	}
+	return fmt.Sprintf("%p base=%s delta=%s", b, snapRL(b.BaseCRL), snapRL(b.DeltaCRL))
+}
+
+func cloneBytes(b []byte) []byte {
+	if b == nil {
+		return nil
+	}
+	return append([]byte{}, b...)
+}
+
+// cloneRL gives the caller a private copy it may scribble on after the call
+func cloneRL(rl *x509.RevocationList) *x509.RevocationList {
+	if rl == nil {
+		return nil
+	}
+	c := *rl
+	c.Raw = cloneBytes(rl.Raw)
+	c.RawTBSRevocationList = cloneBytes(rl.RawTBSRevocationList)
+	c.Signature = cloneBytes(rl.Signature)
+	if rl.Number != nil {
+		c.Number = new(big.Int).Set(rl.Number)
+	}
+	c.RevokedCertificateEntries = append([]x509.RevocationListEntry(nil), rl.RevokedCertificateEntries...)
+	return &c
+}
+
+// scribble: what a caller may do with an object it owns once the call has returned
+func scribbleRL(rl *x509.RevocationList) {
+	if rl == nil {
+		return
+	}
+	for i := range rl.Raw {
+		rl.Raw[i] ^= 0xff
+	}
+	for i := range rl.Signature {
+		rl.Signature[i] = 0
+	}
+	rl.NextUpdate = time.Time{}
+	rl.ThisUpdate = time.Time{}
+	if rl.Number != nil {
+		rl.Number.SetInt64(-1)
+	}
+	rl.RevokedCertificateEntries = nil
+	rl.Raw = rl.Raw[:len(rl.Raw)/2]
+}
+
+func scribbleBundle(b *corecrl.Bundle) {
+	if b == nil {
+		return
+	}
+	scribbleRL(b.BaseCRL)
+	scribbleRL(b.DeltaCRL)
+	b.BaseCRL, b.DeltaCRL = b.DeltaCRL, nil
 }
 
 var (
@@ -293,15 +370,28 @@ func (e *env) execute(id int64, sb string, hc *hcase) string {
 	shaFacts := map[string]bool{}
 	noteContent := func(c []byte) { decFacts[string(c)] = true }
 
-	for _, o := range hc.Ops {
+	hc.Shared = id%2 == 0
+	sharedBundles := map[string]*corecrl.Bundle{}
+	for opIdx, o := range hc.Ops {
 		o.UQ = qurl(o.U)
 		shaFacts[o.U] = true
 		path := filepath.Join(root, keyOf(o.U))
 		switch o.K {
 		case "set":
 			var b *corecrl.Bundle
+			bkey := ""
 			if !o.NilB {
 				b = &corecrl.Bundle{}
+				if o.Base != nil {
+					bkey = o.Base.Label
+				}
+				bkey += "|"
+				if o.Delta != nil {
+					bkey += o.Delta.Label
+				}
+				if sb, ok := sharedBundles[bkey]; ok && hc.Shared {
+					b = sb // the SAME object as in an earlier step of this history
+				}
 				if o.Base != nil {
 					b.BaseCRL = o.Base.RL
 					o.BaseL = o.Base.Label
@@ -322,11 +412,24 @@ func (e *env) execute(id int64, sb string, hc *hcase) string {
 					noteContent(canon(o.Base.Raw, d))
 				}
 			}
+			if b != nil && hc.Shared {
+				sharedBundles[bkey] = b
+			} else if b != nil {
+				// private copies the caller scribbles on after the call
+				b.BaseCRL, b.DeltaCRL = cloneRL(b.BaseCRL), cloneRL(b.DeltaCRL)
+			}
+			before := snapBundle(b)
 			hookMu.Lock()
 			hookCur = rec
 			err := caches[o.Inst&1].Set(ctx, o.U, b)
 			hookCur = nil
 			hookMu.Unlock()
+			if after := snapBundle(b); after != before {
+				hc.Frame = append(hc.Frame, fmt.Sprintf("op %d: Set(%s) changed the caller's Bundle / RevocationList: before {%s} after {%s}", opIdx, qurl(o.U), before, after))
+			}
+			if b != nil && !hc.Shared {
+				scribbleBundle(b)
+			}
 			switch {
 			case err == nil:
 				o.Res = "ok"
@@ -385,6 +488,8 @@ func (e *env) execute(id int64, sb string, hc *hcase) string {
 					}
 					return CApp("RHit", S(base), d)
 				}
+				// the caller owns what Get returned: whatever it does to it must not show in a later Get
+				scribbleBundle(bundle)
 			case gerr == nil:
 				// a nil error with no usable bundle: reported as a hit of nothing
 				o.Res = "nil error without bundle"
